@@ -146,7 +146,7 @@ def check(prop, tier):
                 n = stage["runs"][tier]
                 n = int(n * float(os.environ.get("VERIF_SCALE", "1")))
                 rs = []
-                slice_n = 20000
+                slice_n = 2000 if tier == "thorough" else 20000      # the wall-clock cap is looked at between slices
                 for base in range(0, n, slice_n):
                     if time.time() - t0 > cap:
                         extra["truncated"] = True
